@@ -12,6 +12,7 @@ pub struct LineRec {
     pub step: u64,
     pub clock: u64,
     pub ticks: u64,
+    pub stalled: u64,
     /// Input-thread yield count when the line was delivered.
     pub t0_yields: u64,
     /// Input-thread yield count when the engine came back for the next read (None = never).
@@ -32,6 +33,7 @@ pub struct OutRec {
     pub clock: u64,
     pub ticks: u64,
     pub tticks: u64,
+    pub stalled: u64,
     pub text: String,
 }
 
@@ -79,6 +81,7 @@ fn outrec(i: usize, e: &Ev, text: &str) -> OutRec {
         clock: e.clock,
         ticks: e.ticks,
         tticks: e.tticks,
+        stalled: e.stalled,
         text: text.to_string(),
     }
 }
@@ -110,6 +113,7 @@ pub fn history(rec: &RunRec) -> Hist {
                     step: e.step,
                     clock: e.clock,
                     ticks: e.ticks,
+                    stalled: e.stalled,
                     t0_yields: e.tyields,
                     t0_yields_back: None,
                     outs: vec![],
